@@ -30,23 +30,23 @@ MANIFEST = {
             "attributes with both quote characters, character data and attribute values through StdText, Element Type Match, "
             "Unique Att Spec, Prefix Declared, Attributes Unique) applied to xml_print (the transcription of printer_xml.c) "
             "reports no top-level character data and exactly the generic element trees of the selected forest: namespaces of "
-            "elements and metadata attributes, values, order - for side tables in which a prefix stands for one namespace "
-            "(C12_xml_doc_prefix_clash_refuted: without it libyang writes a duplicate xmlns:prefix, finding xml-meta-prefix-clash) "
-            "and metadata keys distinct per node (C12_xml_doc_dup_meta_refuted); several top-level nodes are well-formed content, "
-            "not a document (C12_xml_doc_std_siblings_refuted). C12_json_doc_std: an RFC 8259 reader (grammar of sections "
-            "2-7 + StdText strings) applied to json_print_all (the transcription of printer_json.c with its state, every node "
-            "selected) recovers the RFC 7951 value of the forest (qualifiers, arrays, string / literal classes, [null], RFC 7952 "
-            "metadata objects), through C01_json_print_is_rfc7951 (the state machine prints the RFC 7951 rendering); for other "
-            "selections: the rendering of the selected part is valid and means it (C12_json_rendering_std), that libyang prints "
-            "it is checked by T2 on every case in explicit mode and refuted for trim mode "
-            "(C12_json_trim_refuted = finding json-trim-leaflist-meta: not JSON). Tie as for C01 (byte-identical output, the "
+            "elements and metadata attributes, values, order - also when two modules share a prefix (since 91f0178 the second "
+            "one gets a numbered prefix; the former C12_xml_doc_prefix_clash_refuted is the positive Example "
+            "C12_xml_doc_prefix_clash_regression) - for metadata keys distinct per node (C12_xml_doc_dup_meta_refuted); several top-level nodes are well-formed content, "
+            "not a document (C12_xml_doc_std_siblings_refuted). C12_json_doc_std / _sel / _checked: an RFC 8259 reader (grammar of "
+            "sections 2-7 + StdText strings) applied to json_print (the transcription of printer_json.c with its state) for "
+            "EVERY node selection recovers the RFC 7951 value of the selected part of the forest (qualifiers, arrays, string / "
+            "literal classes, [null], RFC 7952 metadata objects), through C01_json_print_is_rfc7951 (the state machine prints "
+            "the RFC 7951 rendering of the selected part; since f592167 also in trim mode: the former C12_json_trim_refuted is "
+            "the positive Example C12_json_trim_regression). Tie as for C01 (byte-identical output, the "
             "standard readers of the Coq development run on libyang's bytes). WellFormedX: expat / json on libyang's output for "
             "opaque nodes, anydata / anyxml and operations.",
     "note": "Modelled C: lyxml_dump_text, json_print_string (+ lexers), xml_print_data and json_print_data on the Tree subset "
             "(one data module, shrink mode, no anydata / opaque nodes / unions / tagged with-defaults modes). Outside that subset the "
-            "document-level structure is only checked by the expat/json oracles on generated instances, which is testing. Open "
-            "finding outside the oracles' reach: XML-parsed opaque siblings of equal name in DIFFERENT unknown namespaces make the "
-            "JSON printer fail its assertion !pctx.open.count / emit invalid JSON (matching_node ignores namespaces). The instance "
+            "document-level structure is only checked by the expat/json oracles on generated instances, which is testing. Since "
+            "2c539f8 (matching_node tells namespaces apart; the former assertion failure) WellFormedX prints opaque nodes of "
+            "unknown namespaces as JSON too; that exposed the listed finding json-opaq-array-attr (an \"@name\" member inside an "
+            "array). The instance "
             "generator puts no CR into metadata values (TAB/LF it does); CR in attribute values is covered by the theorem, T2 and "
             "the function-level expat oracle only.",
     "technique": "Coq proof (independent standard readers vs printer models) + correspondence + expat/json oracles",
